@@ -85,6 +85,16 @@ impl<'a> SectionsBuilder<'a> {
             return;
         }
 
+        // a list item that starts with a code block, quote, table or rule has no text of
+        // its own: give it an empty one and keep that block as its first child
+        if !is_section_text(&blocks[range.start]) {
+            self.builder.section(vec![]);
+            let id = self.builder.id();
+            self.process_blocks(range.start..range.end, blocks);
+            self.builder.set_id(id);
+            return;
+        }
+
         self.section_block(&blocks[range.start]);
 
         let id = self.builder.id();
@@ -250,6 +260,13 @@ fn ranges(positions: Vec<usize>, end: usize) -> Vec<Range> {
         ranges.push(positions[positions.len() - 1]..end);
     }
     ranges
+}
+
+fn is_section_text(block: &DocumentBlock) -> bool {
+    match block {
+        Para(_) | Plain(_) | Header(_) | Div(_) | BulletList(_) | OrderedList(_) => true,
+        _ => false,
+    }
 }
 
 pub fn first_header_level(range: Range, content: &DocumentBlocks) -> Option<u8> {
